@@ -71,6 +71,17 @@ def correspondence(ctx, model_ok=True):
             failures.append({"what": "output depends on whether the collector runs", "program": src, "name": name,
                              "always": ca, "never": cn, "modules": {k: v for k, v in mods.items() if k in src},
                              "signature": sig, "failing_input": True})
+    # the same probes with collections at every allocation and NO quarantine: freed boxes are really freed and reused, so a write into a
+    # swept object that does not go through a checked dereference (a borrow guard dropped late, F48) corrupts a live neighbour and shows
+    # (the corpus of past failures is left out: it holds the replays of open findings, whose use of freed memory is then real)
+    smallp = [(n, s, m) for n, s, m in probes]
+    raw, _ = progs.run_programs(ctx.runner, smallp, {"gc": "always"}, tag="w")
+    for (name, src, mods), a, n in zip(smallp, raw, calm[len(corpus):len(corpus) + len(smallp)]):
+        ca, cn = progs.canon_step(a), progs.canon_step(n)
+        if ca != cn:
+            failures.append({"what": "output depends on whether the collector runs (collect at every allocation, freed memory reused)", "program": src, "name": name,
+                             "always": ca, "never": cn, "modules": {k: v for k, v in mods.items() if k in src},
+                             "signature": "schedule-dependent output (memory reused)", "failing_input": True})
     for _, _, _, tg in gen:
         for t in tg:
             tags[t] = tags.get(t, 0) + 1
